@@ -381,6 +381,7 @@ pub fn s_set(select_dev: bool) -> Vec<WCfg> {
         for parts in [2usize, 3] {
             let mut c = WCfg::base(&format!("S-set/{}/{}parts", rej, parts));
             c.max_parts = 1;
+            c.max_holds = 1;
             c.select_dev = select_dev;
             c.max_crashes = 0;
             let (inv, tlv): (usize, Option<Vec<u8>>) = if rej == "ca" {
